@@ -32,8 +32,8 @@ template <class T> static std::string show_val(T v) {
 // from_int / from_uint only exist for the 16/32/64-bit types
 template <class T> static ST::string lib_from(T v, int base, bool up) {
     if constexpr (sizeof(T) == 1) { return ST::string(); }
-    else if constexpr (std::is_signed<T>::value) return ST::string::from_int(v, base, up);
-    else return ST::string::from_uint(v, base, up);
+    else if constexpr (std::is_signed<T>::value) { if (!up && ST::string::from_int(v, base) != ST::string::from_int(v, base, false)) return ST::string("!default-argument-mismatch"); return ST::string::from_int(v, base, up); }
+    else { if (!up && ST::string::from_uint(v, base) != ST::string::from_uint(v, base, false)) return ST::string("!default-argument-mismatch"); return ST::string::from_uint(v, base, up); }
 }
 template <class T> static ST::string lib_from_default(T v) {
     if constexpr (sizeof(T) == 1) { return ST::string(); }
@@ -66,6 +66,11 @@ template <class T> static std::string lib_stream(T v) {
 // ------------------------------------------------------------------ parsing side
 struct PRes { long long v; int flags; long long nv; };   // value with result, ok|full<<1, value of the overload without result
 
+// the defaulted forms (no base argument = base 0): compared with the explicit call whenever the line asks for base 0
+static bool g_default_mismatch = false;
+#define VH_DEFAULTS(R, CALL) if (base == 0) { ST::conversion_result r0, rd; R a = s.CALL(r0, 0); R b = s.CALL(rd); R c = s.CALL(0); R d = s.CALL(); \
+        if (a != b || c != d || r0.ok() != rd.ok() || r0.full_match() != rd.full_match()) g_default_mismatch = true; }
+
 template <class R, class F1, class F2> static std::string one_member(const char *name, F1 with_res, F2 without) {
     ST::conversion_result r;
     R v = with_res(r); R nv = without();
@@ -76,6 +81,10 @@ template <class R, class F1, class F2> static std::string one_member(const char 
 // every to_* member of the requested signedness with at least `minbits` bits
 static std::string members(const ST::string &s, int base, bool sgn, int minbits) {
     std::string o;
+    g_default_mismatch = false;
+    VH_DEFAULTS(short, to_short) VH_DEFAULTS(int, to_int) VH_DEFAULTS(long, to_long) VH_DEFAULTS(long long, to_long_long) VH_DEFAULTS(int64_t, to_int64)
+    VH_DEFAULTS(unsigned short, to_ushort) VH_DEFAULTS(unsigned int, to_uint) VH_DEFAULTS(unsigned long, to_ulong) VH_DEFAULTS(unsigned long long, to_ulong_long) VH_DEFAULTS(uint64_t, to_uint64)
+    if (g_default_mismatch) return " !default-argument-mismatch";
     if (sgn) {
         if (minbits <= 16) o += one_member<short>("short", [&](ST::conversion_result &r) { return s.to_short(r, base); }, [&] { return s.to_short(base); });
         if (minbits <= 32) o += one_member<int>("int", [&](ST::conversion_result &r) { return s.to_int(r, base); }, [&] { return s.to_int(base); });
